@@ -87,6 +87,17 @@ theorem advance_adv (s : Scanner) : Adv s s.advance.2 := by
   · next c h => exact Adv.one h
   · exact Adv.refl s
 
+/-- consuming a line end and counting it (whatever the consumer then does with the character) -/
+theorem advance_newline_adv (s : Scanner) (h : s.advance.1 = some '\n') :
+    Adv s { s.advance.2 with line := s.advance.2.line + 1 } := by
+  cases hq : s.src[s.current]? with
+  | none => simp [advance, hq] at h
+  | some c =>
+    have hc : c = '\n' := by simpa [advance, hq] using h
+    subst hc
+    have := Adv.newline hq
+    simpa [advance, hq] using this
+
 theorem advance_some {s : Scanner} {c : Char} {s' : Scanner} (h : s.advance = (some c, s')) :
     s'.current = s.current + 1 ∧ Adv s s' := by
   unfold advance at h
